@@ -2,7 +2,7 @@
    Invariant of the specification machine (any storage representation):
    every index in any storage's mask belongs to an entity that is not yet
    dead, and every storage resource is listed in the MetaTable. *)
-From SV Require Import Base.ListX Alloc.LifeProps Store.Masked Store.StoreInv World.Env World.Join World.JoinPres World.StoreSim World.EnvSim
+From SV Require Import Base.ListX Alloc.LifeProps Store.Masked Store.StoreInv World.Env World.Join World.JoinPres World.JoinProps World.StoreSim World.EnvSim World.JoinNoStuck
   World.WorldSpec World.Micro World.NoStuck.
 
 Definition masks_live (s : lstate) (e : senv) : Prop :=
@@ -483,7 +483,17 @@ Proof.
     { intros c. destruct A as [S1 T1]. split; cbn [s_with_env s_env s_life env_cx se_stores se_table]; auto. split; cbn; auto. }
     assert (PInv (s_with_env w e')) as He by (split; cbn [s_with_env s_env s_life]; assumption).
     destruct out as [| | | | | | | |r|o| | | | | | | | | | ]; try exact He; [destruct r|destruct o]; try exact He; apply Hc.
-  - discriminate.
+  - (* joins: never stuck, masks only shrink, no storage resource appears or disappears *)
+    destruct (env_join_never_stuck (s_env w) (l_view (s_life w)) (eids_of (l_entities (s_life w))) (s_hs w) jk jms HE Hst Hr) as [_ X2].
+    pose proof (env_join_masks_shrink (s_env w) (l_view (s_life w)) (eids_of (l_entities (s_life w))) (s_hs w) jk jms) as Xm.
+    pose proof (env_join_domain (s_env w) (l_view (s_life w)) (eids_of (l_entities (s_life w))) (s_hs w) jk jms) as [Xt Xd].
+    destruct (env_join (s_env w) _ _ (s_hs w) jk jms) as [e' j]. cbn [fst] in *.
+    split; cbn [s_with_env s_env s_life]; auto.
+    + intros sid ms' i Hf Hm. assert (NS.mem i (env_mask e' sid) = true) as Hm' by (unfold env_mask; rewrite Hf; exact Hm).
+      specialize (Xm sid i Hm'). unfold env_mask in Xm. destruct (NM.find sid (se_stores (s_env w))) as [ms0|] eqn:E0.
+      * apply (HL sid ms0 i E0 Xm).
+      * rewrite NSF.empty_b in Xm. discriminate.
+    + intros sid Hf. rewrite Xt. apply HT. intros Hn. apply Hf. apply Xd. assumption.
   - pose proof (env_csop_pres (fun e' => PInv (s_with_env w e'))) as X.
     assert (forall e' k m, PInv (s_with_env w e') -> PInv (s_with_env w (cs_put e' k m))) as Hcs.
     { intros e' k m [[A1 A2] B C D]. split; cbn [s_with_env s_env s_life] in *; auto. split; cbn [cs_put se_stores se_table]; assumption. }
@@ -512,8 +522,8 @@ Proof.
   { destruct (sstep w o (choices_of out)) as [w1 out1] eqn:Es. cbn [fst] in *.
     destruct (s_ok w1) eqn:Ok1; [|discriminate]. split; [|reflexivity].
     unfold sstep in Es. pose proof (sstep_core_pinv (s_begin w) o (choices_of out) (PInv_begin w HP)) as X.
-    rewrite Es in X. cbn [fst] in X. apply X; auto.
-    - destruct HS as [_ K]. exact K. }
+    rewrite Es in X. cbn [fst] in X. apply X; auto; try (rewrite op_regs_ok_begin; exact R1).
+    destruct HS as [_ K]. exact K. }
   destruct (sstep w o (choices_of out)) as [w1 out1]. cbn [fst] in *. rewrite Hok1 in Hacc. cbn [negb] in Hacc.
   destruct (wout_eqb out out1); [|discriminate].
   apply (IH w1 (S pos)); assumption.
